@@ -45,6 +45,7 @@ def parseOp : List String → Option Op
   | ["adel", p, i, c] => do pure (.arrDel (← p.toNat?) (← i.toNat?) (← c.toNat?))
   | ["setud", i, t] => do pure (.setUserdata (← i.toNat?) (← parseVal t))
   | ["setser", i, t] => do pure (.setSerializer (← i.toNat?) (← parseVal t))
+  | ["setserp", i, t] => do pure (.setSerializer (← i.toNat?) (← parseVal t))
   | ["copy", s, f] => do pure (.deepCopy (← s.toNat?) (← parseVal f))
   | ["ptrset", r, path, v] => do
       -- the pointer text in hex; reference tokens are what lies between the '/' (no `~` escapes generated)
@@ -206,6 +207,15 @@ def step (s : St) (w : List String) : St × Out :=
         | none => "*"
       (s, { model := line, spec := spec })
   | ["nomem"] => ({ s with nomem := true }, { model := "ok", spec := "*" })
+  | ["setd", _] =>
+    -- json_object_set_double on a double node that carries a user-installed serializer / userdata: changing the value
+    -- has no ownership effect (json_object.h: a custom serializer stays in place) - no callback runs, nothing is freed
+    match s.m with
+    | none => (s, { model := "model-stopped-earlier" })
+    | some m =>
+      let mline := specLine 1 none [] [] ++
+        s!" ## order=[] {liveStr m.heap} mem={if s.nomem then "-" else toString m.heap.blocks}"
+      (s, { model := mline, spec := if s.w.isSome then specLine 1 none [] [] else "*", cov := ["setd"] })
   | _ =>
   match parseOp w with
   | none => (s, { model := "bad-op" })
